@@ -164,9 +164,44 @@ def scalarNode (tname : String) (isEnum isSpecified : Bool) (v : J) : Option Lit
 
 def specifiedScalars : List String := ["Int", "Float", "Boolean", "String", "ID"]
 
+mutual
+/-- structural equality of canonical values (kernel-reducible, unlike the derived `BEq J`) -/
+def jEq : J → J → Bool
+  | .null, .null => true
+  | .bool a, .bool b => a == b
+  | .num a, .num b => a == b
+  | .str a, .str b => a == b
+  | .arr a, .arr b => jEqList a b
+  | .obj a, .obj b => jEqFields a b
+  | _, _ => false
+def jEqList : List J → List J → Bool
+  | [], [] => true
+  | x :: xs, y :: ys => jEq x y && jEqList xs ys
+  | _, _ => false
+def jEqFields : List (String × J) → List (String × J) → Bool
+  | [], [] => true
+  | (k, x) :: xs, (l, y) :: ys => k == l && jEq x y && jEqFields xs ys
+  | _, _ => false
+end
+
 /-- `EnumType.get_name`: the name of the (last) value whose internal value equals `v` -/
 def enumNameOf (vals : List EnumValD) (v : J) : Option String :=
-  ((vals.reverse.find? (fun ev => ev.value == v)).map (·.name))
+  ((vals.reverse.find? (fun ev => jEq ev.value v)).map (·.name))
+
+mutual
+/-- no Python float inside (floats are outside the literal-level statement: `Float = 3` is declared `3.0`) -/
+def noFloat : J → Bool
+  | .obj [("$float", _)] => false
+  | .arr xs => noFloatList xs
+  | .obj kvs => noFloatFields kvs
+  | _ => true
+def noFloatList : List J → Bool
+  | [] => true
+  | x :: xs => noFloat x && noFloatList xs
+def noFloatFields : List (String × J) → Bool
+  | [] => true
+  | (_, x) :: xs => noFloat x && noFloatFields xs
+end
 
 mutual
 /-- `ast_node_from_value(value, type)`; `none` = the function raises. Fuel bounds the walk through named
